@@ -29,6 +29,11 @@ import (
 
 // nodeIDOf returns profile[nodeID] of `a` in the view of block `h` ("" = none).
 func (l *ledger) nodeIDOf(h common.Hash, a common.Address) string {
+	if h == l.pvHash && l.pvHash != (common.Hash{}) {
+		if id, ok := l.pvNodeID[a]; ok {
+			return id
+		}
+	}
 	am := account.NewManager(h, l.n.DB)
 	return am.GetAccount(a).GetCandidateState(types.CandidateKeyNodeID)
 }
